@@ -365,6 +365,42 @@ class C10(core.Check):
             else:
                 amount = str(F(rng.choice([-1, 1]) * rng.randint(2, 12), 8))
             out.append({"kind": "extrude", "points": [[str(c) for c in p] for p in base], "amount": amount})
+        for _ in range(max(4, n // 6)):
+            # a scalar amount on a quad lying in a coordinate plane: the raw normal has a rational length, so the model can follow
+            plane = rng.randrange(3)
+            q2 = [[F(x + rng.randint(-2, 2), 8), F(y + rng.randint(-2, 2), 8)] for x, y in ((0, 0), (8, 0), (8, 8), (0, 8))]
+            if rng.random() < 0.5:
+                q2.reverse()
+            h = F(rng.randint(-8, 8), 8)
+            base = [[*pt[:plane], h, *pt[plane:]] for pt in q2]
+            tot = [sum(pt[i] for pt in base) for i in range(3)]
+            sv = [[4 * pt[i] - tot[i] for i in range(3)] for pt in base]
+            cr = lambda a, b: [a[1] * b[2] - a[2] * b[1], a[2] * b[0] - a[0] * b[2], a[0] * b[1] - a[1] * b[0]]
+            nr = [sum(cr(sv[i], sv[(i + 1) % 4])[k] for i in range(4)) for k in range(3)]
+            assert [k for k in range(3) if nr[k] != 0] == [plane]
+            out.append({"kind": "extrude", "points": [[str(c) for c in pt] for pt in base], "amount": str(F(rng.choice([-1, 1]) * rng.randint(2, 12), 8)), "len": str(abs(nr[plane]))})
+        units = [[F(1), F(0), F(0)], [F(0), F(1), F(0)], [F(0), F(0), F(1)], [F(3, 5), F(4, 5), F(0)], [F(0), F(-3, 5), F(4, 5)], [F(2, 3), F(1, 3), F(2, 3)], [F(-6, 7), F(2, 7), F(3, 7)]]
+        for _ in range(max(6, n // 4)):
+            # Revolve by the angle 2·atan(t) (rational cosine and sine) about an axis of rational length through any origin
+            t = F(rng.choice([-1, 1]) * rng.randint(1, 24), 16)
+            k = rng.choice([F(1), F(2), F(1, 2), F(3)])
+            u = rng.choice(units)
+            out.append(
+                {
+                    "kind": "revolvegeo",
+                    "points": [[str(c) for c in pt] for pt in _quad(rng)],
+                    "cos": str((1 - t * t) / (1 + t * t)),
+                    "sin": str(2 * t / (1 + t * t)),
+                    "axis": [str(k * c) for c in u],
+                    "len": str(k),
+                    "origin": [str(F(rng.randint(-16, 16), 8)) for _ in range(3)],
+                }
+            )
+        for _ in range(max(4, n // 6)):
+            # Wedge of a face in the xy-plane away from the x-axis, by the angle 4·atan(t)
+            t = F(rng.randint(1, 12), 64)
+            face = [[F(x + rng.randint(-2, 2), 8), F(y + rng.randint(-2, 2), 8), F(0)] for x, y in ((0, 8), (8, 8), (8, 16), (0, 16))]
+            out.append({"kind": "wedgegeo", "points": [[str(c) for c in pt] for pt in face], "cos2": str((1 - t * t) / (1 + t * t)), "sin2": str(2 * t / (1 + t * t))})
         for _ in range(max(3, n // 6)):
             # two boxes, the second displaced mainly along one axis: a Connector between them
             # (not along axis 2 of the first box: there the viewpoint and the ceiling Connector hands to ViewpointReorienter
@@ -409,7 +445,7 @@ class C10(core.Check):
                 )
             return {"trace": trace, "n0": n0}
 
-        if case["kind"] in ("geo", "box", "extrude", "connector"):
+        if case["kind"] in ("geo", "box", "extrude", "connector", "revolvegeo", "wedgegeo"):
             return self._run_geo(case)
 
         # addressing, observed on the assembled mesh
@@ -562,6 +598,23 @@ class C10(core.Check):
             n = [float(x) for x in base.normal]
             op = cb.Extrude(base, amount)
             return {"points": rp(op.point_array), "pf": [[float(x) for x in p] for p in op.point_array], "normal": n}
+        if case["kind"] == "revolvegeo":
+            import math
+
+            angle = math.atan2(float(Fraction(case["sin"])), float(Fraction(case["cos"])))
+            op = cb.Revolve(cb.Face([fl(p) for p in case["points"]]), angle, fl(case["axis"]), fl(case["origin"]))
+            data = []
+            for e in op.side_edges:
+                ax = getattr(e, "axis", None)
+                vec = getattr(ax, "position", ax)
+                data.append([type(e).__name__, float(getattr(e, "angle", float("nan"))), [float(x) for x in vec] if vec is not None else [float("nan")] * 3])
+            return {"pf": [[float(x) for x in p] for p in op.point_array], "angle": angle, "data": data}
+        if case["kind"] == "wedgegeo":
+            import math
+
+            angle = 2 * math.atan2(float(Fraction(case["sin2"])), float(Fraction(case["cos2"])))
+            op = cb.Wedge(cb.Face([fl(p) for p in case["points"]]), angle)
+            return {"pf": [[float(x) for x in p] for p in op.point_array], "angle": angle}
         if case["kind"] == "connector":
             from classy_blocks.construct.operations.connector import Connector
 
@@ -625,6 +678,13 @@ class C10(core.Check):
             return [f"c10.geo {pts} {qs}"]
         if case["kind"] == "box":
             return ["c10.box " + ",".join(_fr(c) for c in case["p"]) + " " + ",".join(_fr(c) for c in case["q"])]
+        if case["kind"] == "revolvegeo":
+            return ["c10.revolve " + " ".join(",".join(_fr(c) for c in p) for p in case["points"]) + f" {_fr(case['cos'])} {_fr(case['sin'])} "
+                    + ",".join(_fr(c) for c in case["axis"]) + " " + _fr(case["len"]) + " " + ",".join(_fr(c) for c in case["origin"])]
+        if case["kind"] == "wedgegeo":
+            return ["c10.wedge " + " ".join(",".join(_fr(c) for c in p) for p in case["points"]) + f" {_fr(case['cos2'])} {_fr(case['sin2'])}"]
+        if case["kind"] == "extrude" and case.get("len"):
+            return ["c10.extrudes " + " ".join(",".join(_fr(c) for c in p) for p in case["points"]) + f" {_fr(case['amount'])} {_fr(case['len'])}"]
         if case["kind"] == "extrude":
             if not isinstance(case["amount"], list):
                 return []
@@ -650,7 +710,7 @@ class C10(core.Check):
             if not cos > 1 - 1e-9:
                 return f"Face.normal: implementation {impl['n0']}, model direction {[x / length for x in raw]}"
             return None
-        if case["kind"] in ("geo", "box", "extrude", "connector"):
+        if case["kind"] in ("geo", "box", "extrude", "connector", "revolvegeo", "wedgegeo"):
             return self._compare_geo(case, impl, model)
         ans = model[0]
         if "reject" in impl:
@@ -695,6 +755,12 @@ class C10(core.Check):
         if case["kind"] == "connector":
             return None
         if case["kind"] == "extrude" and not model:
+            return None
+        if case["kind"] in ("revolvegeo", "wedgegeo") or (case["kind"] == "extrude" and case.get("len")):
+            want = [[float(Fraction(x)) for x in p] for p in pts_of(model[0])]
+            got = impl["pf"]
+            if len(want) != 8 or any(abs(a - b) > 1e-9 for p, q in zip(got, want) for a, b in zip(p, q)):
+                return f"{case['kind']} corners: implementation {got}, model {want}"
             return None
         if case["kind"] in ("box", "extrude"):
             if not same_pts(impl["points"], pts_of(model[0])):
@@ -762,7 +828,7 @@ class C10(core.Check):
                             }
                         )
             return out
-        if case["kind"] in ("geo", "box", "extrude", "connector"):
+        if case["kind"] in ("geo", "box", "extrude", "connector", "revolvegeo", "wedgegeo"):
             return self._oracle_geo(case, impl)
         base = case.get("base", "loft")
         if "reject" in impl:
@@ -907,6 +973,37 @@ class C10(core.Check):
                     out.append({"site": "Box.__init__:corner-not-in-blockMesh-order", "what": f"Box({case['p']}, {case['q']}): corner {c} is {got[c]}", "expected": [str(x) for x in want]})
                     break
             return out
+        if case["kind"] in ("revolvegeo", "wedgegeo"):
+            base = np.array([[float(F(c)) for c in pt] for pt in case["points"]])
+            got = np.array(impl["pf"])
+
+            def turn(p, ang, ax, org):
+                ax = np.array(ax, dtype=float)
+                u = ax / np.linalg.norm(ax)
+                r = np.array(p) - np.array(org)
+                return np.array(org) + np.cos(ang) * r + np.sin(ang) * np.cross(u, r) + (1 - np.cos(ang)) * np.dot(u, r) * u
+
+            if case["kind"] == "revolvegeo":
+                ax, org = [float(F(c)) for c in case["axis"]], [float(F(c)) for c in case["origin"]]
+                for i in range(4):
+                    if np.linalg.norm(got[i] - base[i]) > 1e-9 or np.linalg.norm(got[i + 4] - turn(base[i], impl["angle"], ax, org)) > 1e-9:
+                        out.append({"site": "Revolve.__init__:top-face-is-not-the-base-turned-by-the-angle", "what": f"{case}: corner {i} {got[i].tolist()} -> {got[i + 4].tolist()}"})
+                        break
+                for i, (cls, ang, dax) in enumerate(impl["data"]):
+                    # the datum on side edge i must describe the arc from corner i to corner i+4: turning corner i by the
+                    # datum's angle about the datum's axis (through the revolve's origin) gives corner i+4
+                    ok = cls == "Angle" and np.linalg.norm(turn(got[i], ang, dax, org) - got[i + 4]) < 1e-9
+                    if not ok:
+                        out.append({"site": "Revolve.side-edge-data:not-the-arc-between-its-two-corners", "what": f"{case}: side edge {i} holds {cls} angle {ang} axis {dax}"})
+                        break
+            else:
+                half = impl["angle"] / 2
+                for i in range(4):
+                    lo, hi = turn(base[i], -half, [1, 0, 0], [0, 0, 0]), turn(base[i], half, [1, 0, 0], [0, 0, 0])
+                    if np.linalg.norm(got[i] - lo) > 1e-9 or np.linalg.norm(got[i + 4] - hi) > 1e-9:
+                        out.append({"site": "Wedge.__init__:not-symmetric-about-the-given-face", "what": f"{case}: corner {i} {got[i].tolist()}, corner {i + 4} {got[i + 4].tolist()}"})
+                        break
+            return out
         if case["kind"] == "extrude":
             base = np.array([[float(F(c)) for c in pt] for pt in case["points"]])
             am = case["amount"]
@@ -979,8 +1076,8 @@ class C10(core.Check):
             return "face:" + "+".join(sorted({o[0] for o in case["ops"]}))
         if case["kind"] == "geo":
             return "geo:" + ("jittered" if case["jitter"] else "affine") + (":inside-out" if case["det"].startswith("-") else "")
-        if case["kind"] in ("box", "extrude", "connector"):
-            return case["kind"]
+        if case["kind"] in ("box", "extrude", "connector", "revolvegeo", "wedgegeo"):
+            return case["kind"] + (":scalar-rational-normal" if case.get("len") else "")
         if "reject" in impl:
             return "addr:rejected:" + impl["reject"]
         b = case.get("base", "loft")
